@@ -11,8 +11,8 @@ META = {
 
 def run(run, model):
     n = effects.immutable_values(run, model)
-    effects.no_other_state(run, model)
-    effects.ctxvar_only(run, model)
+    run.do(effects.no_other_state, model)
+    run.do(effects.ctxvar_only, model)
     # positive control for the zero-count rule: the recogniser must see the marker operations
     regs = marker.regions(model)
     ops = sum(1 for r in regs.values() for k, _, _ in r.event_states if k in ("ACQUIRE", "RESTORE", "REMOVE"))
